@@ -119,6 +119,7 @@ fn run_history(prog: &Value, with_cache: bool, mut out: Option<&mut Out>, sc: &s
         let cached = with_cache && st.get("cached").and_then(Value::as_bool).unwrap_or(false);
         let cache = cached.then(|| cdir.path());
         let proc_ = i as u32 + 1;
+        let log_start = store.log_len();
         let mut info = json!({});
         let res: Outcome<()> = match cmd {
             "backup" => {
@@ -209,13 +210,15 @@ fn run_history(prog: &Value, with_cache: bool, mut out: Option<&mut Out>, sc: &s
             other => panic!("cache: unknown command {other}"),
         };
         if cached {
-            // what the cache holds after the command (every command lists snapshots and index files first)
+            // what the cache holds after the command, per file type, and whether the command listed that type
             let repo_list = |t: u8| -> Vec<Value> {
                 store.snapshot().iter().filter(|(k, _)| k.0 == t).map(|(k, v)| json!({"k": k.1.to_hex().as_str(), "len": v.len()})).collect()
             };
             for (sub, t, name) in [("snapshots", 3u8, "snapshot"), ("index", 1u8, "index")] {
                 let c: Vec<Value> = cache_files(cdir.path(), sub).iter().map(|(k, l)| json!({"k": k, "len": l})).collect();
-                emit(json!({"e":"cachelist","sc":sc,"tpe":name,"cmd":cmd,"cache":c,"repo":repo_list(t),"res":res.class()}), &mut out);
+                // did the command list this file type through its handle? (the property speaks of the cache "after a listing")
+                let listed = store.log()[log_start..].iter().any(|o| o.kind == crate::store::OpKind::List && o.tpe == t && o.proc_ == proc_);
+                emit(json!({"e":"cachelist","sc":sc,"tpe":name,"cmd":cmd,"cache":c,"repo":repo_list(t),"res":res.class(),"listed":listed}), &mut out);
             }
         }
         if cmd != "plant" {
